@@ -8,10 +8,11 @@ def run(ck):
     n = int((3500 if thorough else 105) * ck.scale)
     jobs = []
     for i in range(16):
-        a = ["--mode", "run", "--cases", n, "--seed", sa.subseed(ck, i)]
-        if thorough and i < 4:
-            a.append("--all")
-        jobs.append(dict(exe=asan, args=a, label="run%d" % i, timeout=7200))
+        jobs.append(dict(exe=asan, args=["--mode", "run", "--cases", n, "--seed", sa.subseed(ck, i)], label="run%d" % i, timeout=7200))
+    if thorough:
+        # every mutation of every archive (--all) costs about 15x a sampled case: many short jobs so that all cores stay busy
+        for i in range(32):
+            jobs.append(dict(exe=asan, args=["--mode", "run", "--cases", max(1, n // 20), "--seed", sa.subseed(ck, 100 + i), "--all"], label="all%d" % i, timeout=7200))
     if thorough:
         plain = ck.build("plain", ["ser_mon"])["ser_mon"]
         for i in range(4):
